@@ -29,6 +29,7 @@ c18_expireall_count_before_lock C18
 c12_sys_limit_ignored C12
 revert_restore_expirations C11
 revert_zero_jittered_ttl C10
+revert_skipread_waiter C06
 log_guard_wrong_level C04
 c16_key_copy_after_go C16
 c04_global_lock_during_sync_build C04
